@@ -176,3 +176,436 @@ Proof.
   intros Hsig Hstart Hl. apply (ascending_default_start sig start g Hsig Hstart).
   apply (default_le4_ok sig 0 g Hl); [apply Forall_forall; exact Hsig | left; reflexivity].
 Qed.
+
+(* the default-basis algebra of the same signature list, start index and `graded` flag *)
+Definition default_of (A : alg) : alg := mk_default (a_sig A) (a_start A) (a_graded A).
+
+Lemma default_of_wf A : wf_alg A = true -> 0 <= a_start A -> wf_alg (default_of A) = true.
+Proof. intros HA Hst. apply wf_default; [apply (wf_sig_vals A HA) | exact Hst]. Qed.
+
+Lemma default_of_iso A : a_sig A = a_sig (default_of A) /\ a_start A = a_start (default_of A).
+Proof. split; reflexivity. Qed.
+
+Lemma default_of_dim A : wf_alg A = true -> a_d (default_of A) = a_d A.
+Proof. intros HA. apply (wf_sig_len A HA). Qed.
+
+Theorem default_of_ascending A : wf_alg A = true -> 0 <= a_start A -> (a_d A <= 4)%nat ->
+  ascending_ok (default_of A) = true.
+Proof.
+  intros HA Hst Hd. apply default_ascending; [apply (wf_sig_vals A HA) | exact Hst|].
+  rewrite (wf_sig_len A HA). exact Hd.
+Qed.
+
+(* ====================================================================================== *)
+(** * 2. relabel is an injective unital algebra homomorphism (up to ==) *)
+
+Section Iso.
+  Variable R : Type.
+  Variables (rO rI : R) (radd rmul rsub : R -> R -> R) (ropp : R -> R).
+  Hypothesis Rth : ring_theory rO rI radd rmul rsub ropp (@eq R).
+  Add Ring RringIR : Rth.
+  Local Notation O := (mkOps R radd rsub rmul ropp rO rI).
+  Local Notation "a + b" := (radd a b) : kvr_scope.
+  Local Notation "a * b" := (rmul a b) : kvr_scope.
+  Local Notation "a - b" := (rsub a b) : kvr_scope.
+  Local Notation "- a" := (ropp a) : kvr_scope.
+  Local Notation equiv := (Sparse.equiv rO rI radd rmul rsub ropp).
+  Local Infix "==" := equiv (at level 70, no associativity).
+  Local Notation sg := (Ops.sg rO rI ropp).
+  Local Notation scal := (Algebra.scal rmul).
+  Local Notation one := (Algebra.one rI).
+  Local Notation cf K x := (coeff O K x).
+  Local Notation T l := (l R rO rI radd rmul rsub ropp Rth) (only parsing).
+  Local Notation N l := (l R rO rI radd rmul rsub ropp) (only parsing).
+  Local Instance equiv_EquivIR : Equivalence equiv := equiv_Equivalence R rO rI radd rmul rsub ropp.
+
+  Variables A D : alg.
+  Hypothesis HA : wf_alg A = true.
+  Hypothesis HD : wf_alg D = true.
+  Hypothesis Hsig : a_sig A = a_sig D.
+  Hypothesis Hstart : a_start A = a_start D.
+  Local Notation SA := (wf_sign_hyps A HA).
+  Local Notation SD := (wf_sign_hyps D HD).
+  Local Notation rl := (Relabel.relabel R rO rI rmul ropp A D).
+  Local Notation phi := (phi_key A D).
+  Local Notation eps := (phi_sign A D).
+  Local Notation wfA := (@wfmv R A).
+  Local Notation wfD := (@wfmv R D).
+  Local Notation I4 l := (l A D HA HD Hsig Hstart) (only parsing).
+  Local Notation wfcsA := (wfmv_canon_sort R A (sh_keys A SA) (sh_nodup A SA)).
+  Local Notation wfcsD := (wfmv_canon_sort R D (sh_keys D SD) (sh_nodup D SD)).
+
+  Lemma wf_rl x : wfA x -> wfD (rl x).
+  Proof. apply (wfmv_relabel R rO rI rmul ropp A D HA HD Hsig Hstart). Qed.
+
+  Lemma cf_rl x K : wfA x -> 0 <= K < alg_len A -> cf (phi K) (rl x) = (sg (eps K) * cf K x)%r.
+  Proof. apply (I4 (T coeff_relabel)). Qed.
+
+  (* relabel respects == *)
+  Theorem relabel_congr u v : wfA u -> wfA v -> u == v -> rl u == rl v.
+  Proof.
+    intros Hu Hv H. apply (I4 (T relabel_by_coeff) u (rl v) Hu (wf_rl v Hv)).
+    intros K HK. rewrite (cf_rl v K Hv HK), (H K). reflexivity.
+  Qed.
+
+  (* relabel is injective up to == (phi is a bijection of the keys, phi_sign a unit) *)
+  Theorem relabel_inj u v : wfA u -> wfA v -> rl u == rl v -> u == v.
+  Proof.
+    intros Hu Hv H. apply (N eqv_in A u v Hu Hv). intros K HK.
+    pose proof (H (phi K)) as E. rewrite (cf_rl u K Hu HK), (cf_rl v K Hv HK) in E.
+    destruct (I4 phi_sign_unit K HK) as [e|e]; rewrite e in E.
+    - change (sg 1) with rI in E. transitivity (rI * cf K u)%r; [ring|]. rewrite E. ring.
+    - change (sg (-1)) with (- rI)%r in E. transitivity (- (- rI * cf K u))%r; [ring|]. rewrite E. ring.
+  Qed.
+
+  (* scalars are fixed *)
+  Theorem relabel_scalar c : rl [(0, c)] == [(0, c)].
+  Proof.
+    unfold Relabel.relabel. cbn [map fst snd]. destruct (phi_0 A D HA) as [E1 E2]. rewrite E1, E2.
+    change (sg 1) with rI. intros K. rewrite !(N coeff_cons). destruct (Z.eqb 0 K); [ring | reflexivity].
+  Qed.
+
+  Theorem relabel_one : rl one == one.
+  Proof. exact (relabel_scalar rI). Qed.
+
+  (* relabel is linear *)
+  Theorem relabel_scal c x : rl (scal c x) == scal c (rl x).
+  Proof.
+    intros K. induction x as [|[k v] r IH]; [reflexivity|].
+    unfold Relabel.relabel, Algebra.scal in *. cbn [map fst snd]. rewrite !(N coeff_cons).
+    destruct (Z.eqb (phi k) K); [ring | exact IH].
+  Qed.
+
+  Lemma cf0_rl x : wfA x -> cf 0 (rl x) = cf 0 x.
+  Proof.
+    intros Hx. pose proof (cf_rl x 0 Hx (inr_0 A)) as E. destruct (phi_0 A D HA) as [E1 E2].
+    rewrite E1, E2 in E. rewrite E. change (sg 1) with rI. ring.
+  Qed.
+
+  Lemma rl_gp x y : wfA x -> wfA y -> rl (gp O A x y) == gp O D (rl x) (rl y).
+  Proof. apply (I4 (T relabel_gp)). Qed.
+
+  (* invertibility transfers in both directions *)
+  Theorem invertible_transfer x y : wfA x -> wfA y ->
+    (gp O A x y == one <-> gp O D (rl x) (rl y) == one).
+  Proof.
+    intros Hx Hy. split; intros H.
+    - transitivity (rl (gp O A x y)); [symmetry; apply rl_gp; assumption|].
+      transitivity (rl one); [|apply relabel_one].
+      apply relabel_congr; [apply (N wfmv_gp A SA) | apply wfmv_one | exact H].
+    - apply relabel_inj; [apply (N wfmv_gp A SA) | apply wfmv_one |].
+      transitivity (gp O D (rl x) (rl y)); [apply rl_gp; assumption|].
+      transitivity (Algebra.one rI); [exact H | symmetry; apply relabel_one].
+  Qed.
+
+  Theorem has_inverse_transfer x : wfA x ->
+    (exists y, wfA y /\ gp O A x y == one /\ gp O A y x == one) ->
+    exists y', wfD y' /\ gp O D (rl x) y' == one /\ gp O D y' (rl x) == one.
+  Proof.
+    intros Hx (y & Hy & H1 & H2). exists (rl y). split; [apply wf_rl; exact Hy|].
+    split; [apply (invertible_transfer x y Hx Hy) | apply (invertible_transfer y x Hy Hx)]; assumption.
+  Qed.
+
+  (* ==================================================================================== *)
+  (** * 3. The generators of numerator and denominator commute with relabel *)
+
+  Section Filters.
+    (* F: the OperatorDict filter on the side of A, G: on the side of D — any two filters that keep the
+       element (identity = numeric path, filter_nz = symbolic path, in any combination) *)
+    Variables F G : mv R -> mv R.
+    Hypothesis HF : filter_ok rO rI radd rmul rsub ropp A F.
+    Hypothesis HG : filter_ok rO rI radd rmul rsub ropp D G.
+
+    (* u in A and v in D are the same element *)
+    Definition sim (u v : mv R) : Prop := wfA u /\ wfD v /\ rl u == v.
+
+    Lemma sim_rl x : wfA x -> sim x (rl x).
+    Proof. intros Hx. split; [exact Hx|]. split; [apply wf_rl; exact Hx | reflexivity]. Qed.
+
+    Lemma sim_F u v : sim u v -> sim (F u) (G v).
+    Proof.
+      intros (Hu & Hv & E). destruct (HF u Hu) as [W1 E1]. destruct (HG v Hv) as [W2 E2].
+      split; [exact W1|]. split; [exact W2|].
+      transitivity (rl u); [apply relabel_congr; assumption|]. transitivity v; [exact E | symmetry; exact E2].
+    Qed.
+
+    Lemma sim_gp u v u' v' : sim u v -> sim u' v' -> sim (gp O A u u') (gp O D v v').
+    Proof.
+      intros (Hu & Hv & E) (Hu' & Hv' & E'). split; [apply (N wfmv_gp A SA)|]. split; [apply (N wfmv_gp D SD)|].
+      transitivity (gp O D (rl u) (rl u')); [apply rl_gp; assumption|].
+      apply (T gp_congr D); try assumption; apply wf_rl; assumption.
+    Qed.
+
+    Lemma sim_sub u v u' v' : sim u v -> sim u' v' -> sim (sub O A u u') (sub O D v v').
+    Proof.
+      intros (Hu & Hv & E) (Hu' & Hv' & E'). split; [apply (N wfmv_sub A SA)|]. split; [apply (N wfmv_sub D SD)|].
+      transitivity (sub O D (rl u) (rl u')); [apply (I4 (T relabel_sub)); assumption|].
+      apply (T Algebra.sub_congr D); try assumption; apply wf_rl; assumption.
+    Qed.
+
+    Lemma sim_conj u v : sim u v -> sim (conjugate O A u) (conjugate O D v).
+    Proof.
+      intros (Hu & Hv & E). split; [apply wfcsA|]. split; [apply wfcsD|].
+      transitivity (conjugate O D (rl u)); [apply (I4 (T relabel_conjugate)); assumption|].
+      apply (T Product.conjugate_congr D); [apply (wf_rl u Hu) | apply Hv | exact E].
+    Qed.
+
+    Lemma sim_rev u v : sim u v -> sim (reverse O A u) (reverse O D v).
+    Proof.
+      intros (Hu & Hv & E). split; [apply wfcsA|]. split; [apply wfcsD|].
+      transitivity (reverse O D (rl u)); [apply (I4 (T relabel_reverse)); assumption|].
+      apply (T Product.reverse_congr D); [apply (wf_rl u Hu) | apply Hv | exact E].
+    Qed.
+
+    Lemma sim_invo u v : sim u v -> sim (involute O A u) (involute O D v).
+    Proof.
+      intros (Hu & Hv & E). split; [apply wfcsA|]. split; [apply wfcsD|].
+      transitivity (involute O D (rl u)); [apply (I4 (T relabel_involute)); assumption|].
+      apply (T Product.involute_congr D); [apply (wf_rl u Hu) | apply Hv | exact E].
+    Qed.
+
+    Lemma sim_scalar c : sim (scalar_mv c) (scalar_mv c).
+    Proof. split; [apply wfmv_scalar|]. split; [apply wfmv_scalar | apply relabel_scalar]. Qed.
+
+    Lemma sim_imul u v u' v' : sim u v -> sim u' v' -> sim (i_mul O F A u u') (i_mul O G D v v').
+    Proof. intros H H'. unfold i_mul. apply sim_F, sim_gp; assumption. Qed.
+    Lemma sim_isub u v u' v' : sim u v -> sim u' v' -> sim (i_sub O F A u u') (i_sub O G D v v').
+    Proof. intros H H'. unfold i_sub. apply sim_F, sim_sub; assumption. Qed.
+    Lemma sim_iconj u v : sim u v -> sim (i_conj O F A u) (i_conj O G D v).
+    Proof. intros H. unfold i_conj. apply sim_F, sim_conj; assumption. Qed.
+    Lemma sim_irev u v : sim u v -> sim (i_rev O F A u) (i_rev O G D v).
+    Proof. intros H. unfold i_rev. apply sim_F, sim_rev; assumption. Qed.
+    Lemma sim_iinvo u v : sim u v -> sim (i_invo O F A u) (i_invo O G D v).
+    Proof. intros H. unfold i_invo. apply sim_F, sim_invo; assumption. Qed.
+
+    (* MultiVector.grade(...): same failure, corresponding parts (no filter) *)
+    Lemma sim_grade_sel grades u v : sim u v ->
+      match grade_sel O A grades u with
+      | Ok r => exists r', grade_sel O D grades v = Ok r' /\ sim r r'
+      | Err e => grade_sel O D grades v = Err e
+      end.
+    Proof.
+      intros (Hu & Hv & E). pose proof (I4 (T relabel_grade_sel) grades u Hu) as H.
+      destruct (grade_sel O A grades u) as [r|e] eqn:Eg.
+      - destruct H as (r1 & E1 & Er1).
+        destruct (N grade_sel_inv D grades (rl u) r1 E1) as [Hok _].
+        pose proof (N grade_sel_ok D grades v Hok) as E2.
+        eexists. split; [exact E2|].
+        pose proof (N grade_sel_wf A (sh_keys A SA) (sh_nodup A SA) (sh_grade A SA) grades u r Eg Hu) as Wr.
+        pose proof (N grade_sel_wf D (sh_keys D SD) (sh_nodup D SD) (sh_grade D SD) grades _ r1 E1 (wf_rl u Hu)) as Wr1.
+        pose proof (N grade_sel_wf D (sh_keys D SD) (sh_nodup D SD) (sh_grade D SD) grades v _ E2 Hv) as Wr2.
+        split; [exact Wr|]. split; [exact Wr2|]. transitivity r1; [exact Er1|].
+        apply (N eqv_in D); try assumption. intros K HK.
+        rewrite (N grade_sel_coeff D (sh_keys D SD) (sh_grade D SD) grades _ r1 K E1 HK).
+        rewrite (N grade_sel_coeff D (sh_keys D SD) (sh_grade D SD) grades v _ K E2 HK).
+        rewrite !(N drop_zin), (E K). reflexivity.
+      - unfold grade_sel in H |- *. destruct (indices_for_grades D grades); cbn [bind] in *; [discriminate H | exact H].
+    Qed.
+
+    (* codegen_hitzer_inv, numerator: every dimension (the formulas for d <= 5, NotImplementedError beyond) *)
+    Theorem hitzer_num_sim x x' : sim x x' ->
+      match hitzer_num O F A x with
+      | Ok n => exists n', hitzer_num O G D x' = Ok n' /\ sim n n'
+      | Err e => hitzer_num O G D x' = Err e
+      end.
+    Proof.
+      intros S. unfold hitzer_num. rewrite <- (same_dim A D HA HD Hsig).
+      destruct (a_d A) as [|[|[|[|[|[|n]]]]]].
+      - eexists. split; [reflexivity|]. apply (sim_scalar rI).
+      - eexists. split; [reflexivity|]. apply sim_iinvo, S.
+      - eexists. split; [reflexivity|]. apply sim_iconj, S.
+      - eexists. split; [reflexivity|].
+        apply sim_imul; [apply sim_iconj, S|]. apply sim_irev, sim_imul; [exact S | apply sim_iconj, S].
+      - pose proof (sim_iconj x x' S) as Sc. pose proof (sim_imul _ _ _ _ S Sc) as Sn.
+        pose proof (sim_grade_sel [3; 4]%nat _ _ Sn) as Hg.
+        destruct (grade_sel O A [3; 4]%nat (i_mul O F A x (i_conj O F A x))) as [r|e]; cbn [bind].
+        + destruct Hg as (r' & Er' & Sr). rewrite Er'. cbn [bind]. eexists. split; [reflexivity|].
+          apply sim_imul; [exact Sc|]. apply sim_isub; [exact Sn|]. apply sim_imul; [apply sim_scalar | exact Sr].
+        + rewrite Hg. reflexivity.
+      - pose proof (sim_iconj x x' S) as Sc. pose proof (sim_imul _ _ _ _ S Sc) as Sn.
+        pose proof (sim_imul _ _ _ _ Sc (sim_irev _ _ Sn)) as Sco.
+        pose proof (sim_imul _ _ _ _ S Sco) as Sxc.
+        pose proof (sim_grade_sel [1; 4]%nat _ _ Sxc) as Hg.
+        match goal with |- context [grade_sel O A ?gr ?z] => destruct (grade_sel O A gr z) as [r|e] end; cbn [bind].
+        + destruct Hg as (r' & Er' & Sr). rewrite Er'. cbn [bind]. eexists. split; [reflexivity|].
+          apply sim_imul; [exact Sco|]. apply sim_isub; [exact Sxc|]. apply sim_imul; [apply sim_scalar | exact Sr].
+        + rewrite Hg. reflexivity.
+      - reflexivity.
+    Qed.
+
+    (* the denominator (x.sp(num)).e *)
+    Theorem hitzer_den_sim x x' n n' : sim x x' -> sim n n' ->
+      hitzer_den O F A x n = hitzer_den O G D x' n'.
+    Proof.
+      intros Sx Sn. pose proof Sx as (Hx & Hx' & _). pose proof Sn as (Hn & Hn' & _).
+      unfold hitzer_den, e_of, i_sp.
+      destruct (HF (sp O A x n) (wfcsA _)) as [_ E1]. destruct (HG (sp O D x' n') (wfcsD _)) as [_ E2].
+      rewrite (E1 0), (E2 0).
+      rewrite (T sp_e A SA x n Hx Hn), (T sp_e D SD x' n' Hx' Hn').
+      destruct (sim_gp _ _ _ _ Sx Sn) as (W & _ & E). rewrite <- (E 0). symmetry. apply cf0_rl. exact W.
+    Qed.
+  End Filters.
+
+  (* the statements in the form "relabel commutes with": the relabelled operand on the side of D *)
+  Theorem hitzer_num_relabel F G : filter_ok rO rI radd rmul rsub ropp A F -> filter_ok rO rI radd rmul rsub ropp D G ->
+    forall x, wfA x ->
+    match hitzer_num O F A x with
+    | Ok n => exists n', hitzer_num O G D (rl x) = Ok n' /\ wfA n /\ wfD n' /\ rl n == n'
+    | Err e => hitzer_num O G D (rl x) = Err e
+    end.
+  Proof. intros HF HG x Hx. exact (hitzer_num_sim F G HF HG x (rl x) (sim_rl x Hx)). Qed.
+
+  Theorem hitzer_den_relabel F G : filter_ok rO rI radd rmul rsub ropp A F -> filter_ok rO rI radd rmul rsub ropp D G ->
+    forall x n n', wfA x -> wfA n -> wfD n' -> rl n == n' ->
+    hitzer_den O F A x n = hitzer_den O G D (rl x) n'.
+  Proof.
+    intros HF HG x n n' Hx Hn Hn' E.
+    apply (hitzer_den_sim F G HF HG x (rl x) n n' (sim_rl x Hx)). split; [exact Hn|]. split; [exact Hn' | exact E].
+  Qed.
+
+  (* numeric path on both sides: no filter *)
+  Corollary hitzer_num_relabel_id x : wfA x ->
+    match hitzer_num O (fun z => z) A x with
+    | Ok n => exists n', hitzer_num O (fun z => z) D (rl x) = Ok n' /\ wfA n /\ wfD n' /\ rl n == n'
+    | Err e => hitzer_num O (fun z => z) D (rl x) = Err e
+    end.
+  Proof. apply hitzer_num_relabel; apply filter_ok_id. Qed.
+End Iso.
+
+(* ====================================================================================== *)
+(** * 4. C07 for d <= 4, every admissible basis *)
+
+Section AnyBasis.
+  Variable R : Type.
+  Variables (rO rI : R) (radd rmul rsub : R -> R -> R) (ropp : R -> R).
+  Hypothesis Rth : ring_theory rO rI radd rmul rsub ropp (@eq R).
+  Local Notation O := (mkOps R radd rsub rmul ropp rO rI).
+  Local Notation "a * b" := (rmul a b) : kvr_scope.
+  Local Notation equiv := (Sparse.equiv rO rI radd rmul rsub ropp).
+  Local Infix "==" := equiv (at level 70, no associativity).
+  Local Notation scal := (Algebra.scal rmul).
+  Local Notation one := (Algebra.one rI).
+  Local Notation T l := (l R rO rI radd rmul rsub ropp Rth) (only parsing).
+  Local Notation N l := (l R rO rI radd rmul rsub ropp) (only parsing).
+  Local Instance equiv_EquivAB : Equivalence equiv := equiv_Equivalence R rO rI radd rmul rsub ropp.
+
+  Variable A : alg.
+  Hypothesis HA : wf_alg A = true.
+  Hypothesis Hd : (a_d A <= 4)%nat.
+  Hypothesis Hst : 0 <= a_start A.
+  Local Notation D := (default_of A).
+  Local Notation HD := (default_of_wf A HA Hst).
+  Local Notation SA := (wf_sign_hyps A HA).
+  Local Notation SD := (wf_sign_hyps D HD).
+  Local Notation rl := (Relabel.relabel R rO rI rmul ropp A D).
+  Local Notation I4 l := (l A D HA HD eq_refl eq_refl) (only parsing).
+  Local Notation wf := (@wfmv R A).
+  Local Notation GP := (gp O A).
+  Local Notation has_inverse x := (exists y, wf y /\ GP x y == one /\ GP y x == one).
+
+  Variable dv : R -> R -> R.
+  Variable isz : R -> bool.
+  Variable F : mv R -> mv R.
+  Hypothesis HF : filter_ok rO rI radd rmul rsub ropp A F.
+
+  Lemma dim_D : (a_d D <= 4)%nat.
+  Proof. rewrite (default_of_dim A HA). exact Hd. Qed.
+
+  (* the closed forms of codegen_hitzer_inv up to four dimensions, with the singular case:
+     Hitzer.hitzer_le4 without [ascending_ok] *)
+  Theorem hitzer_le4_any_basis x : wf x ->
+    exists num, hitzer_num O F A x = Ok num /\ wf num /\
+      let den := hitzer_den O F A x num in
+      GP x num == scal den one /\ GP num x == scal den one /\
+      (den = rO -> rI <> rO -> ~ has_inverse x).
+  Proof.
+    intros Hx.
+    pose proof (I4 (wf_rl R rO rI rmul ropp) x Hx) as Hx'.
+    destruct (T hitzer_le4 D SD (default_of_ascending A HA Hst Hd) (fun z => z) (N filter_ok_id D) dim_D (rl x) Hx')
+      as (n' & En' & Wn' & H1 & H2 & Hs).
+    pose proof (I4 (T hitzer_num_relabel) F (fun z => z) HF (N filter_ok_id D) x Hx) as Hn.
+    destruct (hitzer_num O F A x) as [n|e].
+    2:{ rewrite En' in Hn. discriminate Hn. }
+    destruct Hn as (n'' & E'' & Wn & _ & En). rewrite En' in E''. injection E'' as <-.
+    exists n. split; [reflexivity|]. split; [exact Wn|].
+    pose proof (I4 (T hitzer_den_relabel) F (fun z => z) HF (N filter_ok_id D) x n n' Hx Wn Wn' En) as Eden.
+    cbv zeta in H1, H2, Hs |- *. rewrite <- Eden in H1, H2, Hs.
+    set (den := hitzer_den O F A x n) in *.
+    assert (Wd : wf (scal den one)) by (apply wfmv_scal, wfmv_one).
+    assert (Ed : rl (scal den one) == scal den one).
+    { transitivity (scal den (rl one)); [apply (T relabel_scal)|].
+      apply (T scal_congr). apply (I4 (T relabel_one)). }
+    split; [|split].
+    - apply (I4 (T relabel_inj)); [apply (N wfmv_gp A SA) | exact Wd|].
+      transitivity (gp O D (rl x) (rl n)); [apply (I4 (T rl_gp)); assumption|].
+      transitivity (gp O D (rl x) n').
+      { apply (T gp_congr D); try assumption; try reflexivity; apply (I4 (wf_rl R rO rI rmul ropp)); assumption. }
+      transitivity (scal den one); [exact H1 | symmetry; exact Ed].
+    - apply (I4 (T relabel_inj)); [apply (N wfmv_gp A SA) | exact Wd|].
+      transitivity (gp O D (rl n) (rl x)); [apply (I4 (T rl_gp)); assumption|].
+      transitivity (gp O D n' (rl x)).
+      { apply (T gp_congr D); try assumption; try reflexivity; apply (I4 (wf_rl R rO rI rmul ropp)); assumption. }
+      transitivity (scal den one); [exact H2 | symmetry; exact Ed].
+    - intros Hden H10 Hinv. apply (Hs Hden H10).
+      exact (I4 (T has_inverse_transfer) x Hx Hinv).
+  Qed.
+
+  Lemma lt6_any : Nat.ltb (a_d A) 6 = true.
+  Proof. apply Nat.ltb_lt. lia. Qed.
+
+  (* x * x.inv() = x.inv() * x = 1 whenever alg.inv returns *)
+  Theorem inv_le4_sound_any_basis x r : wf x ->
+    (forall b, isz b = false -> (b * dv rI b)%r = rI) ->
+    inv_model O dv isz F A x = Ok r -> GP x r == one /\ GP r x == one.
+  Proof.
+    intros Hx Hdv Hr.
+    destruct (hitzer_le4_any_basis x Hx) as (num & En & Wn & H1 & H2 & _).
+    assert (E : inv_numden O dv isz F A x = Ok (num, hitzer_den O F A x num)).
+    { unfold inv_numden. rewrite lt6_any. unfold hitzer. rewrite En. reflexivity. }
+    pose proof Hr as Hr'. apply (N inv_model_ok) in Hr'.
+    destruct Hr' as (num' & den' & E' & Hz & _). rewrite E in E'. inversion E'; subst num' den'.
+    exact (T inv_model_sound A SA dv isz F HF x num _ r Hx E H1 H2 (Hdv _ Hz) Hr).
+  Qed.
+
+  (* alg.inv never fails otherwise than by ZeroDivisionError *)
+  Theorem inv_le4_total_any_basis x : wf x ->
+    (exists r, inv_model O dv isz F A x = Ok r) \/ inv_model O dv isz F A x = Err EZeroDiv.
+  Proof.
+    intros Hx. destruct (hitzer_le4_any_basis x Hx) as (num & En & _).
+    unfold inv_model, inv_numden. rewrite lt6_any. unfold hitzer. rewrite En. cbn [bind].
+    destruct (isz _); [right; reflexivity | left; eexists; reflexivity].
+  Qed.
+
+  (* ZeroDivisionError only for operands without a two-sided inverse *)
+  Theorem zde_only_singular_le4_any_basis x : wf x -> rI <> rO -> (forall r, isz r = true -> r = rO) ->
+    inv_model O dv isz F A x = Err EZeroDiv -> ~ has_inverse x.
+  Proof.
+    intros Hx H10 Hz H. apply (N zde_iff A dv isz F) in H.
+    destruct H as (num & den & E & Hden). unfold inv_numden in E. rewrite lt6_any in E.
+    unfold hitzer in E. apply bind_Ok in E. destruct E as (n & En & E). inversion E; subst n den.
+    destruct (hitzer_le4_any_basis x Hx) as (num' & En' & _ & _ & _ & Hs). rewrite En in En'. inversion En'; subst num'.
+    exact (Hs (Hz _ Hden) H10).
+  Qed.
+
+  (* over a field: a value exactly for the invertible operands, ZeroDivisionError exactly for the others *)
+  Theorem inv_le4_complete_any_basis x : wf x -> rI <> rO ->
+    (forall r, isz r = true -> r = rO) -> (forall b, isz b = false -> (b * dv rI b)%r = rI) ->
+    (has_inverse x <-> exists r, inv_model O dv isz F A x = Ok r)
+    /\ (~ has_inverse x <-> inv_model O dv isz F A x = Err EZeroDiv).
+  Proof.
+    intros Hx H10 Hz Hdv. destruct (inv_le4_total_any_basis x Hx) as [[r Hr]|He].
+    - assert (Hi : has_inverse x).
+      { exists r. split; [exact (N inv_model_wf A SA dv isz F HF x r Hr)|].
+        exact (inv_le4_sound_any_basis x r Hx Hdv Hr). }
+      split; split.
+      + intros _. exists r. exact Hr.
+      + intros _. exact Hi.
+      + intros Hn. exfalso. exact (Hn Hi).
+      + rewrite Hr. discriminate.
+    - pose proof (zde_only_singular_le4_any_basis x Hx H10 Hz He) as Hs. split; split.
+      + intros Hi. exfalso. exact (Hs Hi).
+      + intros [r Hr]. rewrite He in Hr. discriminate.
+      + intros _. exact He.
+      + intros _. exact Hs.
+  Qed.
+End AnyBasis.
